@@ -38,12 +38,34 @@ pub open spec fn names_upto(t: &HirTable, b: &ImplBlock, k: int) -> Set<Seq<char
         match meth_name(t, b, k - 1) { Some(n) => names_upto(t, b, k - 1).insert(n), None => names_upto(t, b, k - 1) }
     }
 }
-// entry i defines a name the type already has: from an earlier impl block (`before`) or from an earlier entry of this block
-pub open spec fn ambiguous_at(before: Set<Seq<char>>, t: &HirTable, b: &ImplBlock, i: int) -> bool {
-    meth_name(t, b, i) matches Some(n) && (before.contains(n) || names_upto(t, b, i).contains(n))
+// entry i defines a name that is taken (earlier impl block of the same key, or the other kind of key) or that an earlier entry of this block defines
+pub open spec fn ambiguous_at(tb: InherentTable, key: InherentImplKey, for_ty: Ty, t: &HirTable, b: &ImplBlock, i: int) -> bool {
+    meth_name(t, b, i) matches Some(n) && (is_taken(tb, key, for_ty, n) || names_upto(t, b, i).contains(n))
 }
-pub open spec fn any_ambiguous(before: Set<Seq<char>>, t: &HirTable, b: &ImplBlock, k: int) -> bool
+pub open spec fn any_ambiguous(tb: InherentTable, key: InherentImplKey, for_ty: Ty, t: &HirTable, b: &ImplBlock, k: int) -> bool
     decreases k,
 {
-    k > 0 && (ambiguous_at(before, t, b, k - 1) || any_ambiguous(before, t, b, k - 1))
+    k > 0 && (ambiguous_at(tb, key, for_ty, t, b, k - 1) || any_ambiguous(tb, key, for_ty, t, b, k - 1))
 }
+
+// ---- overlap between an instance impl (`impl Box[int32]`, key Exact) and a generic impl (`impl[T] Box[T]`, key Constr) ----
+pub uninterp spec fn constr_name_of(t: Ty) -> Option<Seq<char>>;                       // typer::util::try_constr_name
+// the method name n is already defined under the OTHER kind of key for the same type constructor
+pub open spec fn overlap_defined(t: InherentTable, key: InherentImplKey, for_ty: Ty, n: Seq<char>) -> bool {
+    match key {
+        InherentImplKey::Exact(_) => constr_name_of(for_ty) matches Some(c) && exists|k: InherentImplKey| k matches InherentImplKey::Constr(cs) && cs@ == c
+            && #[trigger] t.methods(k).dom().contains(n),
+        InherentImplKey::Constr(cs) => exists|k: InherentImplKey| k matches InherentImplKey::Exact(ty) && constr_name_of(ty) == Some(cs@)
+            && #[trigger] t.methods(k).dom().contains(n),
+    }
+}
+// n is taken for this impl block: defined at the same key already, or under the other kind of key for the same constructor
+pub open spec fn is_taken(t: InherentTable, key: InherentImplKey, for_ty: Ty, n: Seq<char>) -> bool {
+    t.methods(key).dom().contains(n) || overlap_defined(t, key, for_ty, n)
+}
+// toplevel::inherent_method_overlaps (a walk over the impl table; trusted to compute exactly this)
+#[verifier::external_body]
+pub fn inherent_method_overlaps(env: &PackageTypeEnv, key: &InherentImplKey, for_ty: &Ty, method: &str) -> (r: bool)
+    ensures r == overlap_defined(env.cur.trait_env.inherent_impls, *key, *for_ty, method@),
+{ unimplemented!() }
+
